@@ -151,6 +151,10 @@ func Parse(args []string) *Call {
 					mem = append(mem, j)
 				}
 			}
+		case "dotand":
+			for _, j := range c.Joined {
+				mem = append(mem, splitNonEmpty(j, ".and.")...)
+			}
 		default:
 			mem = c.Joined
 		}
